@@ -95,7 +95,9 @@ def step_make(target, log, jobs=16, timeout=3000):
             if rc != 0:
                 log.append("[coq_makefile] rc=%d\n%s" % (rc, out))
                 return False
-        rc, out = sh(["make", "-j%d" % jobs, target], cwd=COQ, timeout=timeout)
+        # every coqc runs under its own timeout: a diverging proof must not stall the build of the others
+        args = ["make", "-j%d" % jobs, "COQC=timeout %d coqc" % int(os.environ.get("VERIF_COQC_TIMEOUT", "1500"))]
+        rc, out = sh(args + ([target] if target != "-k" else ["-k"]), cwd=COQ, timeout=timeout)
         log.append("[make %s] rc=%d\n%s" % (target, rc, out[-6000:]))
         return rc == 0
 
